@@ -7,7 +7,7 @@ from sa import q as Q
 from sa.cfg import cfg_of, PathBoundExceeded
 from sa.pathsim import PathSim, C, NULL
 from sa.q import cond_atoms, strip_sv, sv_field_path, atomic_op, noepoch
-from . import e2, e3, skiplist
+from . import e2, e3, skiplist, bronson
 from .C13 import contract
 
 PROPERTY = "C15"
@@ -33,7 +33,9 @@ EXPLANATION = (
     "retires only when every level was unlinked (or the unlink counter reached zero in the helper). Ellen tree: child pointers are swung only by "
     "help_insert / help_marked (who-may-write), a flag CAS is followed by its help routine only when won, a descriptor is freed directly only when "
     "it was never published, nodes are retired only by the thread whose Mark CAS won, the erase functor / counter run only after help_delete "
-    "succeeded, the new internal node's children are ordered by the comparison made in try_insert and initialised before the flag CAS. NOT decided: Bronson node-lock discipline,: linearizability, extract_min/max emptiness claims, helping progress.")
+    "succeeded, the new internal node's children are ordered by the comparison made in try_insert and initialised before the flag CAS. Bronson map: the link / version / height / value fields of a node are written only while that node's monitor lock is held "
+    "(own scoped lock, or a parameter that every call site of a *_locked member / helper lambda passes locked or freshly allocated - inferred as a "
+    "greatest fixpoint over the call sites); a child's parent pointer is written under the lock of the node that becomes its parent. NOT decided:: linearizability, extract_min/max emptiness claims, helping progress.")
 ASSUMPTIONS = ["clang CFG (-DNDEBUG); asserts harvested from a second parse with -UNDEBUG", "rules/rcu_contract.json is the reviewed reference of "
                "members whose callers must hold the RCU lock", "necessary conditions only"]
 R = "Otherwise a node is touched after reclamation, linked out of order, retired twice / while reachable, or an update is applied on a stale position (C15)."
@@ -278,5 +280,12 @@ def r15_4(ctx):
 r15_4.rule_id = "R15.4"
 
 
-RULES = [r15_1, r15_2, r15_3, r15_4]
-FLOORS = {"R15.1": 20, "R15.2": 150, "R15.3": 20, "R15.4": 40}
+def r15_5(ctx):
+    n = bronson.rule_node_locks(ctx, "R15.5", R)
+    if n < 20:
+        ctx.broken("Bronson node writes not found (%d)" % n)
+r15_5.rule_id = "R15.5"
+
+
+RULES = [r15_1, r15_2, r15_3, r15_4, r15_5]
+FLOORS = {"R15.1": 20, "R15.2": 150, "R15.3": 20, "R15.4": 40, "R15.5": 20}
